@@ -251,7 +251,7 @@ VP_HARNESS(h_xml_roundtrip)
     VP_ASSUME(h != NULL); int r = hwloc_distances_add_values(A, h, 2, objs, vals, 0); VP_ASSUME(r == 0); r = hwloc_distances_add_commit(A, h, 0); VP_ASSUME(r == 0); }
 #if WITH_DIST >= 2
   { hwloc_obj_t objs[3] = { SA.pkg[0], SA.pu[2], SA.pu[3] }; hwloc_uint64_t vals[9] = { 1, 2, 3, 4, 5, 6, 7, 8, 9 };
-    hwloc_distances_add_handle_t h = hwloc_distances_add_create(A, "Mixed", HWLOC_DISTANCES_KIND_FROM_USER | HWLOC_DISTANCES_KIND_VALUE_BANDWIDTH, 0);
+    hwloc_distances_add_handle_t h = hwloc_distances_add_create(A, "Mixed", HWLOC_DISTANCES_KIND_FROM_USER | HWLOC_DISTANCES_KIND_VALUE_HOPS, 0);      /* the most recent value kind */
     VP_ASSUME(h != NULL); int r = hwloc_distances_add_values(A, h, 3, objs, vals, 0); VP_ASSUME(r == 0); r = hwloc_distances_add_commit(A, h, 0); VP_ASSUME(r == 0); }
 #endif
 #endif
@@ -545,7 +545,7 @@ VP_HARNESS(h_import_memattr)
 #ifndef DOC_HI
 #define DOC_HI 3
 #endif
-#define NDOC 30
+#define NDOC 34
 static struct tt_elem *doc_obj(struct tt_elem *p, const char *type, const char *os, const char *cpuset, const char *nodeset, const char *gp)
 {
   struct tt_elem *o = tt_child(p, "object");
@@ -557,22 +557,25 @@ static struct tt_elem *doc_obj(struct tt_elem *p, const char *type, const char *
   return o;
 }
 /* 1 = a legal document: it must load; 0 = a document with a defect: refused, or loaded into a well-formed topology */
-static const int doc_loads[NDOC] = { 1, 0, 0, 0, 0, 0, 0, 0, 0, 0,   0, 0, 0, 0, 0, 1, 1, 1, 1, 0,   1, 1, 0, 1, 0, 0, 1, 1, 0, 1 };
+static const int doc_loads[NDOC] = { 1, 0, 0, 0, 0, 0, 0, 0, 0, 0,   0, 0, 0, 0, 0, 1, 1, 1, 1, 0,   1, 1, 0, 1, 0, 0, 1, 1, 0, 1,   0, 0, 0, 0 };
 static unsigned doc_loaded, doc_refused;
 static void doc_case(int c)
 {
   struct tt_elem *X = tt_new("topology"); tt_attr(X, "version", c == 27 ? "2.0" : "3.0");
   /* the base document: Machine(0x3 / node 0x1) { NUMANode#0, PU#0, PU#1 } */
   struct tt_elem *M = tt_child(X, "object");
-  tt_attr(M, "type", c == 11 ? "Bogus" : "Machine");                                /* 11: unknown type string */
-  tt_attr(M, "os_index", "0"); tt_attr(M, "cpuset", "0x00000003"); tt_attr(M, "complete_cpuset", "0x00000003"); tt_attr(M, "allowed_cpuset", "0x00000003");
-  if (c != 14) { tt_attr(M, "nodeset", c == 15 ? "0x0" : "0x00000001"); tt_attr(M, "complete_nodeset", c == 15 ? "0x0" : "0x00000001"); tt_attr(M, "allowed_nodeset", "0x00000001"); }      /* 14: root without nodeset (its NUMA child then has a nodeset while the parent has none), 15: empty root nodeset (completed by the NUMA child: loads) */
+  tt_attr(M, "type", c == 11 ? "Bogus" : c == 30 ? "Bridge" : "Machine");           /* 11: unknown type string; 30: a root that the attribute importer marks as ignored (bad bridge_pci) */
+  if (c == 30) { tt_attr(M, "bridge_type", "0-1"); tt_attr(M, "depth", "0"); tt_attr(M, "bridge_pci", "zz"); }
+  tt_attr(M, "os_index", "0"); tt_attr(M, "cpuset", "0x00000003"); if (c != 31) tt_attr(M, "complete_cpuset", "0x00000003"); tt_attr(M, "allowed_cpuset", "0x00000003");      /* 31: root with sets but without complete_ sets */
+  if (c != 14) { tt_attr(M, "nodeset", c == 15 ? "0x0" : "0x00000001"); if (c != 31) tt_attr(M, "complete_nodeset", c == 15 ? "0x0" : "0x00000001"); tt_attr(M, "allowed_nodeset", "0x00000001"); }      /* 14: root without nodeset (its NUMA child then has a nodeset while the parent has none), 15: empty root nodeset (completed by the NUMA child: loads) */
   tt_attr(M, "gp_index", "1");
   if (c == 19) { struct tt_elem *i = tt_child(M, "info"); tt_attr(i, "name", "n"); tt_attr(i, "bogus", "v"); }                   /* 19: info with an unknown attribute */
   if (c == 20) { struct tt_elem *i = tt_child(M, "info"); tt_attr(i, "name", "n"); }                                            /* 20: info without value: ignored */
   if (c == 21) { struct tt_elem *i = tt_child(M, "page_type"); tt_attr(i, "size", "4096"); tt_attr(i, "count", "2"); }         /* 21: machine page types */
   if (c == 13) tt_child(M, "bogus");                                                                                            /* 13: unknown child tag */
-  struct tt_elem *N = doc_obj(M, "NUMANode", "0", "0x00000003", c == 3 ? "0x00000003" : "0x00000001", "2");                      /* 3: NUMA node with two bits */
+  struct tt_elem *N;
+  if (c == 33) { N = tt_child(M, "object"); tt_attr(N, "type", "NUMANode"); tt_attr(N, "os_index", "0"); tt_attr(N, "cpuset", "0x00000003"); tt_attr(N, "complete_cpuset", "0x00000003"); tt_attr(N, "nodeset", "0x00000001"); tt_attr(N, "gp_index", "2"); }      /* 33: NUMA node without complete_nodeset */
+  else N = doc_obj(M, "NUMANode", "0", "0x00000003", c == 3 ? "0x00000003" : "0x00000001", "2");                      /* 3: NUMA node with two bits */
   tt_attr(N, "local_memory", "4096");
   if (c == 9) { struct tt_elem *b = doc_obj(N, "Bridge", NULL, NULL, NULL, "9"); tt_attr(b, "bridge_type", "0-1"); tt_attr(b, "depth", "0"); tt_attr(b, "bridge_pci", "0000:[00-01]"); }      /* 9: I/O below memory */
   struct tt_elem *parent = M;
@@ -584,7 +587,8 @@ static void doc_case(int c)
   struct tt_elem *P0, *P1;
   if (c == 16) { P1 = doc_obj(parent, "PU", "1", "0x00000002", "0x00000001", "4"); P0 = doc_obj(parent, "PU", "0", "0x00000001", "0x00000001", "3"); }      /* 16: children out of order: reordered */
   else {
-    if (c == 12) { P0 = tt_child(parent, "object"); tt_attr(P0, "os_index", "0"); tt_attr(P0, "type", "PU"); tt_attr(P0, "cpuset", "0x00000001"); tt_attr(P0, "complete_cpuset", "0x00000001"); tt_attr(P0, "nodeset", "0x00000001"); tt_attr(P0, "complete_nodeset", "0x00000001"); tt_attr(P0, "gp_index", "3"); }      /* 12: an attribute before the type */
+    if (c == 32) { P0 = tt_child(parent, "object"); tt_attr(P0, "type", "PU"); tt_attr(P0, "os_index", "0"); tt_attr(P0, "cpuset", "0x00000001"); tt_attr(P0, "nodeset", "0x00000001"); tt_attr(P0, "gp_index", "3"); }      /* 32: a PU with sets but without complete_ sets */
+    else if (c == 12) { P0 = tt_child(parent, "object"); tt_attr(P0, "os_index", "0"); tt_attr(P0, "type", "PU"); tt_attr(P0, "cpuset", "0x00000001"); tt_attr(P0, "complete_cpuset", "0x00000001"); tt_attr(P0, "nodeset", "0x00000001"); tt_attr(P0, "complete_nodeset", "0x00000001"); tt_attr(P0, "gp_index", "3"); }      /* 12: an attribute before the type */
     else P0 = doc_obj(parent, "PU", "0", c == 1 ? "0x00000003" : "0x00000001", "0x00000001", "3");                                   /* 1: PU with two bits */
     P1 = doc_obj(parent, "PU", "1", c == 2 ? "0x00000001" : c == 24 ? "0x00000020" : "0x00000002", "0x00000001", "4"); }           /* 2: PU whose bit is not its os_index; 24: a PU outside its parent's cpuset */
   if (c == 5) { struct tt_elem *m = doc_obj(P0, "Misc", NULL, "0x00000001", "0x00000001", "8"); (void) m; }                 /* 5: Misc with sets */
@@ -761,4 +765,42 @@ VP_HARNESS(h_xml_dup_export)
   hwloc_topology_destroy(B); hwloc_topology_destroy(A);
 #endif
   VP_WITNESS("dup, compare, export twice, destroy both");
+}
+
+/* ---- C06: "when load fails the topology can be configured and loaded again": the REAL hwloc_topology_load around a refused document ------------ */
+#ifdef VP_CBMC
+void hwloc_disc_components_enable_others(struct hwloc_topology *t) { (void) t; }
+void hwloc_backends_is_thissystem(struct hwloc_topology *t) { (void) t; }
+void hwloc_backends_find_callbacks(struct hwloc_topology *t) { (void) t; }
+void hwloc_internal_distances_prepare(struct hwloc_topology *t) { t->grouping = 0; }
+#endif
+static struct tt_elem *small_doc(int valid)
+{
+  struct tt_elem *X = tt_new("topology"); tt_attr(X, "version", "3.0");
+  struct tt_elem *M = tt_child(X, "object"); tt_attr(M, "type", valid ? "Machine" : "Bogus"); tt_attr(M, "os_index", "0");
+  tt_attr(M, "cpuset", "0x00000001"); tt_attr(M, "complete_cpuset", "0x00000001"); tt_attr(M, "allowed_cpuset", "0x00000001");
+  tt_attr(M, "nodeset", "0x00000001"); tt_attr(M, "complete_nodeset", "0x00000001"); tt_attr(M, "allowed_nodeset", "0x00000001"); tt_attr(M, "gp_index", "1");
+  struct tt_elem *N = doc_obj(M, "NUMANode", "0", "0x00000001", "0x00000001", "2"); tt_attr(N, "local_memory", "4096");
+  doc_obj(M, "PU", "0", "0x00000001", "0x00000001", "3");
+  return X;
+}
+VP_HARNESS(h_load_failure)
+{
+  tt_backend_data(&vp_x_bd, small_doc(0));
+  vp_seed_prepare_only = 1;
+  struct hwloc_topology *t = vp_seed_build(200, 0);
+  vp_seed_prepare_only = 0;
+  int r = hwloc_topology_load(t);
+  VP_CHECK(r == -1, "a refused document makes hwloc_topology_load fail");
+  VP_CHECK((t->state & HWLOC_TOPOLOGY_STATE_IS_INIT) && !(t->state & (HWLOC_TOPOLOGY_STATE_IS_LOADING | HWLOC_TOPOLOGY_STATE_IS_LOADED)), "after a failed load the topology is back in its initial state");
+  VP_CHECK(t->nb_levels == 1 && t->levels[0][0]->type == HWLOC_OBJ_MACHINE && !t->levels[0][0]->first_child && !t->backends, "after a failed load the topology holds its defaults and no backend");
+  errno = 0;
+  VP_CHECK(hwloc_topology_set_flags(t, HWLOC_TOPOLOGY_FLAG_INCLUDE_DISALLOWED) == 0 && hwloc_topology_set_type_filter(t, HWLOC_OBJ_MISC, HWLOC_TYPE_FILTER_KEEP_ALL) == 0, "after a failed load the topology can be configured again");
+  /* ... and loaded again, this time from a valid document */
+  tt_backend_data(&vp_x_bd, small_doc(1));
+  vp_be.topology = t; t->backends = &vp_be; t->backend_phases = HWLOC_DISC_PHASE_GLOBAL; vp_be.next = NULL;
+  r = hwloc_topology_load(t);
+  VP_CHECK(r == 0 && (t->state & HWLOC_TOPOLOGY_STATE_IS_LOADED), "after a failed load the topology can be loaded again");
+  if (r == 0) vp_wf_check(t, HWLOC_TOPOLOGY_FLAG_INCLUDE_DISALLOWED);
+  VP_WITNESS("load failed, reconfigured, loaded again");
 }
